@@ -6,8 +6,8 @@ from . import xl, xlerrors, func_xltypes, xlcriteria
 @xl.register()
 @xl.validate_args
 def AVERAGE(
-        *numbers: Tuple[func_xltypes.Number]
-) -> func_xltypes.Number:
+        *numbers: Tuple[func_xltypes.XlNumber]
+) -> func_xltypes.XlNumber:
     """Returns the average (arithmetic mean) of the arguments.
 
     https://support.office.com/en-us/article/
@@ -118,7 +118,7 @@ def COUNTIFS(
 
 @xl.register()
 @xl.validate_args
-def MAX(*numbers: Tuple[func_xltypes.Number]):
+def MAX(*numbers: Tuple[func_xltypes.XlNumber]):
     """Returns the largest value in a set of values.
 
     https://support.office.com/en-us/article/
@@ -133,7 +133,7 @@ def MAX(*numbers: Tuple[func_xltypes.Number]):
 
 @xl.register()
 @xl.validate_args
-def MIN(*numbers: Tuple[func_xltypes.Number]):
+def MIN(*numbers: Tuple[func_xltypes.XlNumber]):
     """Returns the smallest number in a set of values.
 
     https://support.office.com/en-us/article/
